@@ -370,6 +370,9 @@ def check_points_linear(X, means, covs, c, n, k, stats, what, dc=0.0):
         P = covs[i]
         pn = max(n * maxabs(P), 1e-300)
         cf = float(c)
+        # the scale of the factor: what was recovered from the columns or, where the mean is so large that the
+        # perturbation is (partly) lost in fl(m + B), what the contract says it is
+        bscale = max(bscale, math.sqrt(abs(cf) * maxabs(P)))
         res = max([abs(float(BBt[a][b] - c * P[a][b])) for a in range(n) for b in range(n)] + [0.0])
         # the columns themselves are rounded (X = fl(m + B)): the recovered factor carries eps (|m| + |B|) per entry
         tol = C_SQRT * n * EPS * abs(cf) * pn + 16 * n * EPS * bscale * (mscale + bscale) + dc * pn + 1e-300
@@ -382,7 +385,7 @@ def check_points_linear(X, means, covs, c, n, k, stats, what, dc=0.0):
             # relative to the largest variance.
             sd = [math.sqrt(float(P[a][a])) for a in range(n)]
             mr = [abs(float(m[a])) for a in range(n)]
-            br = [max([abs(float(v)) for v in B[a]] + [0.0]) for a in range(n)]
+            br = [max([abs(float(v)) for v in B[a]] + [math.sqrt(abs(cf)) * sd[a]]) for a in range(n)]
             worst = 0.0
             for a in range(n):
                 for b in range(n):
@@ -936,8 +939,10 @@ def compare_ut(meta, o, mo, stats):
         # sqrt(P_bb) -- a tolerance relative to the largest variance would hide an error in a small one
         sdev = [math.sqrt(pn)] * n
         if nx >= 2 and all(P[a_][b_] == 0 for a_ in range(nx) for b_ in range(nx) if a_ != b_):
-            zn = math.sqrt(nz * max([abs(float(P[a_][b_])) for a_ in range(nx, n) for b_ in range(nx, n)] + [0.0])) if nz else 0.0
-            sdev = [math.sqrt(float(P[b_][b_])) for b_ in range(nx)] + [zn] * nz
+            # (the noise block is diagonalised by rotations that stop at a threshold relative to the largest diagonal
+            # entry of the whole matrix: its accuracy is relative to ||P||, unless it is exactly diagonal as well)
+            zdiag = all(P[a_][b_] == 0 for a_ in range(nx, n) for b_ in range(nx, n) if a_ != b_)
+            sdev = [math.sqrt(float(P[b_][b_])) for b_ in range(nx)] + [(math.sqrt(float(P[b_][b_])) if zdiag else math.sqrt(pn)) for b_ in range(nx, n)]
         fsc = [sum(abs(float(A[a_][b_])) * sdev[b_] for b_ in range(n)) for a_ in range(ny)]
         cmean = [o["mean"][r][i] for r in range(ny)]
         ccov = [[o["cov"][a][ny * i + c] for c in range(ny)] for a in range(ny)]
